@@ -62,7 +62,7 @@ for p in props:
 
 m = {
  "version": 1,
- "setup_cmd": "cd /verif/harness && CARGO_NET_OFFLINE=true CARGO_TARGET_DIR=/verif/target cargo build --release --offline",
+ "setup_cmd": "/verif/scripts/setup.sh",
  "hooks": {
    "guard": "cargo feature `verif_hooks` on crate ruzstd (off by default)",
    "enable": "path dependency from /verif/harness with features = [\"verif_hooks\", \"dict_builder\"]",
